@@ -216,9 +216,15 @@ class SetEncoder(encoder.SequenceEncoder):
 
                 comps.append((component, asn1Spec[idx], namedType))
 
+        def sortKey(x):
+            comp, compType, namedType = x
+            if namedType and namedType.openType and namedType.asn1Object.tagSet:
+                # a typed open type value goes out under the tags of its field
+                return namedType.asn1Object.tagSet[-1:]
+            return self._componentSortKey(x[:2])[-1:]
+
         # X.690 (10.3) orders SET components by their (outermost) tag
-        for comp, compType, namedType in sorted(
-                comps, key=lambda x: self._componentSortKey(x[:2])[-1:]):
+        for comp, compType, namedType in sorted(comps, key=sortKey):
 
             if namedType:
                 options.update(ifNotEmpty=namedType.isOptional)
